@@ -113,6 +113,18 @@ def run_prims(ctx):
         check_millis(ctx, v)
     for L in (1, 2, 3, 4):
         ctx.key(("millis", L))
+    for v in (-1, -2, -128, -255, -256, 256, 257, 1000, -1000):
+        ctx.ev()
+        bb_ = io.BytesIO()
+        try:
+            R, W = codec(); W._ctor(bb_, None).write_byte(v)
+            ctx.V("C14:byte:out-of-domain-accepted", f"write_byte({v}) did not raise and wrote {bb_.getvalue().hex()} (a byte is 0..255)", {"kind": "byte", "v": v})
+        except Exception as e:  # noqa: BLE001
+            ctx.exc(e)
+    for v in range(256):
+        p_, data_ = rt(lambda w, x: w.write_byte(x), lambda r: r.read_byte(), v)
+        ctx.ev(); ctx.counters["counts"] += 1
+        if p_ or data_ != bytes([v]): ctx.V("C14:byte:value", f"write_byte({v}): {p_} {data_.hex()}", {"kind": "byte", "v": v})
     for v in (-MS, MS, MS + 1, -MS - 1, 2 * MS):
         ctx.ev()
         try:
@@ -318,10 +330,18 @@ def run_composites(ctx):
             _ZoneRecurrence("X", Offset.zero, yo, fy, ty)
         except (ValueError, OverflowError) as e:      # the constructor refuses it (year domain; rule unanswerable at the very end of the range): nothing to write
             ctx.exc(e); fy, ty = 1900, 2037
+        if rng.random() < 0.08:
+            fy, ty = -(2**31), rng.choice([-1, -5, -9998, 0])          # ends before the common era: the writer must refuse it or keep it
+            try:
+                _ZoneRecurrence("X", Offset.zero, yo, fy, ty)
+            except (ValueError, OverflowError) as e:
+                ctx.exc(e); fy, ty = 1900, 2037
         rec = _ZoneRecurrence(rng.choice(pool), Offset.from_seconds(rng.choice([0, 3600, 1800, 7200, -3600])), yo, fy, ty)
         for pl in (None, pool):
             p, data = rt(lambda w, x: x._write(w), lambda r: _ZoneRecurrence.read(r), rec, pool=pl)
             ctx.ev(); ctx.counters["composites"] += 1
+            if p and p[0] == "write-raised" and ty <= 0:
+                ctx.count("recurrence_bc_refused"); continue          # not accepted by the writer: nothing to read back
             if p: ctx.V(f"C14:recurrence:{p[0]}", f"_ZoneRecurrence {rec!r} (pool={pl is not None}): {p}", {"kind": "recurrence", "repr": repr(rec)}, p)
     for _ in range(n // 4):
         std = Offset.from_seconds(rng.choice([0, 3600, -18000, 19800, 34200, rng.randrange(-50000, 50000)]))
